@@ -629,3 +629,64 @@ def picklable_state_obligations(prog, rule, classes):
         out.append(struct_ob(rule, f"{ci.module.name}.{ci.name}", not hits, msg, ci.module.relpath, hits[0][0] if hits else ci.node.lineno,
                              slots={"methods_scanned": len(ci.methods), "hits": len(hits)}))
     return out
+
+
+def call_order_obligations(prog, rule, rels):
+    """One obligation per source file: no call to a function / method / constructor of the repository passes two of the callee's
+    own parameter names in each other's positions (`f(b, a)` into `def f(a, b)`): forwarding a value under the name of one
+    parameter into the slot of another, while that other one goes into the first's slot, is a swap (the typical victims are
+    `super().__init__(inv_mass, n_parameters)` and kernel(u, v, theta) calls, where both orders run without an error)."""
+    from ..model import iter_functions
+    out = []
+    for rel_ in rels:
+        mi = prog.module(rel_)
+        hits, n_calls = [], 0
+        for cls_name, ci in [(None, None)] + [(c.name, c) for c in mi.classes.values()]:
+            fns = ci.methods.items() if ci is not None else mi.functions.items()
+            for mname, fn in fns:
+                sn = fn.args.args[0].arg if (ci is not None and fn.args.args) else None
+                for call in [n for n in ast.walk(fn) if isinstance(n, ast.Call)]:
+                    callee = None
+                    f = call.func
+                    if isinstance(f, ast.Attribute) and isinstance(f.value, ast.Call) and U(f.value.func) == "super" and ci is not None:
+                        mro = prog.mro(ci)
+                        for c2 in mro[1:]:
+                            if f.attr in c2.methods:
+                                callee = c2.methods[f.attr]
+                                break
+                        skip = 1
+                    elif isinstance(f, ast.Attribute) and isinstance(f.value, ast.Name) and f.value.id == sn and ci is not None:
+                        c2, callee = prog.find_method(ci, f.attr)
+                        skip = 1 if callee is not None and not any(U(d) == "staticmethod" for d in callee.decorator_list) else 0
+                    elif isinstance(f, ast.Name):
+                        if f.id in mi.functions:
+                            callee, skip = mi.functions[f.id], 0
+                        elif f.id in prog.classes and "__init__" in prog.classes[f.id].methods:
+                            callee, skip = prog.classes[f.id].methods["__init__"], 1
+                        else:
+                            q = mi.imports.get(f.id, "")
+                            if q.startswith("inference."):
+                                modname, _, nm = q.rpartition(".")
+                                m2 = prog.modules.get(modname)
+                                if m2 is not None and nm in m2.functions:
+                                    callee, skip = m2.functions[nm], 0
+                                elif nm in prog.classes and "__init__" in prog.classes[nm].methods:
+                                    callee, skip = prog.classes[nm].methods["__init__"], 1
+                    if callee is None or any(isinstance(a, ast.Starred) for a in call.args):
+                        continue
+                    n_calls += 1
+                    params = [a.arg for a in callee.args.args][skip:]
+                    names = [a.id if isinstance(a, ast.Name) else None for a in call.args]
+                    for i, a in enumerate(names):
+                        if a is None or i >= len(params) or a == params[i] or a not in params:
+                            continue
+                        j = params.index(a)
+                        if j < len(names) and names[j] == params[i] and i < j:
+                            hits.append((call.lineno, U(call)[:100], f"`{a}` goes into the slot of `{params[i]}` and `{names[j]}` into the slot "
+                                                                      f"of `{params[j]}` ({callee.name}({', '.join(params)}))", f"{cls_name + '.' if cls_name else ''}{mname}"))
+        msg = ""
+        if hits:
+            line, text, why, where = hits[0]
+            msg = f"`{text}` in {where} (line {line}): {why}" + (f" (+{len(hits) - 1} more)" if len(hits) > 1 else "")
+        out.append(struct_ob(rule, rel_, not hits, msg, rel_, hits[0][0] if hits else 0, slots={"calls_resolved": n_calls, "hits": len(hits)}))
+    return out
